@@ -3,10 +3,9 @@
 
 Reads the CURRENT kernel/sync/spinlock_amd64.s and kernel/sync/spinlock.go of a repository
 tree and writes a TLA+ module `SpinProg` holding
-  ExtractedProg      the instruction table of archAcquireSpinlock (labels resolved to indices)
-  ExtractedAttempts  the constant Acquire passes as attemptsBeforeYielding
-  ExtractedTry       the atomic operation of TryToAcquire
-  ExtractedRel       the store of Release
+  ExtractedProg      one instruction table: archAcquireSpinlock (labels resolved to indices) followed by the
+                     compiled bodies of Spinlock.Acquire, TryToAcquire and Release
+  ExtractedEntryAcq/Try/Rel   index of the first instruction of each method (0 = not understood)
 for the interpreter specs/sync/SpinAsm.tla.  Only a fixed dictionary of instruction shapes and
 of Go statement shapes is understood; anything else makes that part "inconclusive" (the part is
 left out of the model and the caller writes a note) - never an alarm.
@@ -156,53 +155,289 @@ def func_body(src, name):
             raise ValueError("unbalanced braces in " + name)
         depth += {"{": 1, "}": -1}.get(src[i], 0)
         i += 1
-    body = src[m.end():i - 1]
-    body = re.sub(r"//[^\n]*", "", body)
-    return " ".join(body.split())
+    return re.sub(r"//[^\n]*", "", src[m.end():i - 1])
 
 
-def small(v):
-    n = int(v, 0)
-    if not 0 <= n <= 3:
-        raise ValueError("constant outside the modelled range 0..3: " + v)
-    return n
+# ---- a compiler for the three method bodies: statements over sync/atomic operations on l.state -------------
+TOKEN = re.compile(r"\s*(?:(\n)|([A-Za-z_][\w.]*)|(0x[0-9a-fA-F]+|\d+)|(==|!=|:=|&&|\|\||[(){},;&=!]))", re.S)
+
+
+def tokenize(body):
+    toks, pos = [], 0
+    body = body.replace("\t", " ")
+    while pos < len(body):
+        if body[pos] in " \r":
+            pos += 1
+            continue
+        if body[pos] == "\n":
+            # Go's automatic semicolon: after an identifier, literal, ) or }
+            if toks and (toks[-1][0] in ("id", "num") or toks[-1][1] in (")", "}")):
+                toks.append(("p", ";"))
+            pos += 1
+            continue
+        m = TOKEN.match(body, pos)
+        if not m or m.end() == pos:
+            raise ValueError("character not understood: %r" % body[pos:pos + 20])
+        if m.group(2):
+            toks.append(("id", m.group(2)))
+        elif m.group(3):
+            toks.append(("num", int(m.group(3), 0)))
+        elif m.group(4):
+            toks.append(("p", m.group(4)))
+        pos = m.end()
+    toks.append(("p", ";"))
+    return toks
+
+
+class GoCompiler:
+    """Compiles one method body into instructions (jump targets are local labels, resolved by link())."""
+
+    def __init__(self, toks, boolean):
+        self.t, self.i, self.code, self.vars, self.boolean, self.nlab = toks, 0, [], {}, boolean, 0
+
+    def peek(self, k=0):
+        return self.t[self.i + k] if self.i + k < len(self.t) else ("eof", None)
+
+    def take(self, kind=None, val=None):
+        tk = self.peek()
+        if (kind and tk[0] != kind) or (val is not None and tk[1] != val):
+            raise ValueError("unexpected %r (wanted %r)" % (tk[1], val or kind))
+        self.i += 1
+        return tk
+
+    def accept(self, val):
+        if self.peek()[1] == val and self.peek()[0] in ("p", "id"):
+            self.i += 1
+            return True
+        return False
+
+    def label(self):
+        self.nlab += 1
+        return "L%d" % self.nlab
+
+    def emit(self, op, d="AX", s="AX", v=0, to=0):
+        self.code.append({"op": op, "d": d, "s": s, "v": v, "to": to})
+
+    def place(self, lab):
+        self.code.append({"label": lab})
+
+    def num(self):
+        n = self.take("num")[1]
+        if not 0 <= n <= 3:
+            raise ValueError("constant outside the modelled range 0..3: %d" % n)
+        return n
+
+    def lockaddr(self):
+        self.take("p", "&")
+        self.take("id", "l.state")
+
+    # value expression -> register name holding it
+    def value(self):
+        tk = self.take("id")
+        name = tk[1]
+        if name == "atomic.SwapUint32":
+            self.take("p", "(")
+            self.lockaddr()
+            self.take("p", ",")
+            v = self.num()
+            self.take("p", ")")
+            self.emit("gswap", d="BX", v=v)
+            return "BX"
+        if name == "atomic.LoadUint32":
+            self.take("p", "(")
+            self.lockaddr()
+            self.take("p", ")")
+            self.emit("gload", d="BX")
+            return "BX"
+        if name == "l.state":
+            self.emit("gload", d="BX")
+            return "BX"
+        if name in self.vars:
+            return self.vars[name]
+        raise ValueError("expression not understood: " + name)
+
+    # condition -> sense: after the emitted code, the condition is TRUE iff (Z == sense)
+    def cond(self):
+        if self.accept("!"):
+            return not self.cond()
+        if self.peek() == ("p", "("):
+            self.take()
+            sense = self.cond()
+            self.take("p", ")")
+            return sense
+        if self.peek() == ("id", "true") or self.peek() == ("id", "false"):
+            self.emit("setz", v=1 if self.take()[1] == "true" else 0)
+            return True
+        if self.peek() == ("id", "atomic.CompareAndSwapUint32"):
+            self.take()
+            self.take("p", "(")
+            self.lockaddr()
+            self.take("p", ",")
+            old = self.num()
+            self.take("p", ",")
+            new = self.num()
+            self.take("p", ")")
+            self.emit("gcas", v=old, to=new)
+            return True
+        r = self.value()
+        op = self.take("p")[1]
+        if op not in ("==", "!="):
+            raise ValueError("comparison expected, got %r" % op)
+        self.emit("cmpi", d=r, v=self.num())
+        return op == "=="
+
+    def branch_if_false(self, sense, lab):
+        self.code.append({"op": "jnz" if sense else "jz", "d": "AX", "s": "AX", "v": 0, "to": lab})
+
+    def block(self):
+        self.take("p", "{")
+        self.stmts()
+        self.take("p", "}")
+
+    def stmts(self):
+        while self.peek()[1] not in ("}", None):
+            if self.accept(";"):
+                continue
+            self.stmt()
+
+    def simple(self):
+        """assignment / call statements"""
+        tk = self.peek()
+        if tk[0] == "id" and self.peek(1) == ("p", ":="):
+            name = self.take()[1]
+            self.take()
+            r = self.value()
+            if name not in self.vars:
+                free = [x for x in ("BX", "CX") if x not in self.vars.values()]
+                if not free:
+                    raise ValueError("more than two local variables")
+                self.vars[name] = free[0]
+            if self.vars[name] != r:
+                self.emit("movr", d=self.vars[name], s=r)
+            return
+        if tk == ("id", "atomic.StoreUint32"):
+            self.take()
+            self.take("p", "(")
+            self.lockaddr()
+            self.take("p", ",")
+            v = self.num()
+            self.take("p", ")")
+            self.emit("gastore", v=v)
+            return
+        if tk == ("id", "l.state") and self.peek(1) == ("p", "="):
+            self.take()
+            self.take()
+            self.emit("gstore", v=self.num())
+            return
+        if tk == ("id", "archAcquireSpinlock"):
+            self.take()
+            self.take("p", "(")
+            self.lockaddr()
+            self.take("p", ",")
+            n = self.take("num")[1]
+            self.take("p", ")")
+            self.emit("tail", v=min(n, 3))
+            return
+        if tk[0] == "id" and tk[1] in ("atomic.SwapUint32", "atomic.CompareAndSwapUint32", "atomic.LoadUint32"):
+            if tk[1] == "atomic.CompareAndSwapUint32":
+                self.cond()
+            else:
+                self.value()
+            return
+        raise ValueError("statement not understood at %r" % (tk[1],))
+
+    def stmt(self):
+        if self.accept("if"):
+            # optional init statement
+            j, depth, has_init = self.i, 0, False
+            while self.t[j][1] != "{" or depth:
+                depth += {"(": 1, ")": -1}.get(self.t[j][1], 0)
+                if self.t[j] == ("p", ";") and not depth:
+                    has_init = True
+                    break
+                j += 1
+            if has_init:
+                self.simple()
+                self.take("p", ";")
+            sense = self.cond()
+            l_else, l_end = self.label(), self.label()
+            self.branch_if_false(sense, l_else)
+            self.block()
+            if self.accept("else"):
+                self.code.append({"op": "jmp", "d": "AX", "s": "AX", "v": 0, "to": l_end})
+                self.place(l_else)
+                if self.peek() == ("id", "if"):
+                    self.stmt()
+                else:
+                    self.block()
+                self.place(l_end)
+            else:
+                self.place(l_else)
+            return
+        if self.accept("return"):
+            if not self.boolean:
+                self.emit("ret")
+                return
+            if self.peek() == ("id", "true") and self.peek(1)[1] in (";", "}"):
+                self.take()
+                self.emit("rett")
+                return
+            if self.peek() == ("id", "false") and self.peek(1)[1] in (";", "}"):
+                self.take()
+                self.emit("retf")
+                return
+            sense = self.cond()
+            lf = self.label()
+            self.branch_if_false(sense, lf)
+            self.emit("rett")
+            self.place(lf)
+            self.emit("retf")
+            return
+        self.simple()
+
+    def compile(self):
+        self.stmts()
+        if self.peek()[0] != "eof" and self.peek()[1] is not None:
+            raise ValueError("trailing tokens: %r" % (self.peek()[1],))
+        if not self.boolean:
+            self.emit("ret")
+        elif not self.code or self.code[-1].get("op") not in ("rett", "retf"):
+            raise ValueError("boolean method can fall off its end")
+        return self.code
+
+
+def link(code, base):
+    """Resolve local labels; instruction k of the result gets global index base + k."""
+    pos, out = {}, []
+    for c in code:
+        if "label" in c:
+            pos[c["label"]] = base + len(out) + 1
+        else:
+            out.append(dict(c))
+    for c in out:
+        if isinstance(c["to"], str):
+            c["to"] = pos[c["to"]]
+    return out
+
+
+def compile_method(src, name, boolean):
+    toks = tokenize(func_body(src, name))
+    toks = [t for t in toks]
+    return GoCompiler(toks, boolean).compile()
 
 
 def extract_go(src):
     out, notes = {}, []
-    try:
-        b = func_body(src, "Acquire")
-        m = re.fullmatch(r"archAcquireSpinlock\(&l\.state, (\w+)\)", b)
-        if not m:
-            raise ValueError("Acquire is not a single call archAcquireSpinlock(&l.state, N): " + b)
-        out["attempts"] = int(m.group(1), 0)
-    except ValueError as e:
-        notes.append("Acquire: " + str(e))
-    try:
-        b = func_body(src, "TryToAcquire")
-        m = re.fullmatch(r"return atomic\.SwapUint32\(&l\.state, (\w+)\) (==|!=) (\w+)", b)
-        m2 = re.fullmatch(r"return atomic\.CompareAndSwapUint32\(&l\.state, (\w+), (\w+)\)", b)
-        if m:
-            out["try"] = {"kind": "swap", "v": small(m.group(1)), "cmp": "eq" if m.group(2) == "==" else "ne", "c": small(m.group(3)),
-                          "old": 0, "new": 0}
-        elif m2:
-            out["try"] = {"kind": "cas", "v": 0, "cmp": "eq", "c": 0, "old": small(m2.group(1)), "new": small(m2.group(2))}
-        else:
-            raise ValueError("TryToAcquire is not `return atomic.SwapUint32(&l.state, V) ==|!= C` nor a CompareAndSwap: " + b)
-    except ValueError as e:
-        notes.append("TryToAcquire: " + str(e))
-    try:
-        b = func_body(src, "Release")
-        m = re.fullmatch(r"atomic\.StoreUint32\(&l\.state, (\w+)\)", b)
-        m2 = re.fullmatch(r"l\.state = (\w+)", b)
-        if m:
-            out["rel"] = {"kind": "atomic", "v": small(m.group(1))}
-        elif m2:
-            out["rel"] = {"kind": "plain", "v": small(m2.group(1))}
-        else:
-            raise ValueError("Release is not a single store to l.state: " + b)
-    except ValueError as e:
-        notes.append("Release: " + str(e))
+    for key, name, boolean in (("acq", "Acquire", False), ("try", "TryToAcquire", True), ("rel", "Release", False)):
+        try:
+            out[key] = compile_method(src, name, boolean)
+            if len([c for c in out[key] if "op" in c]) > 30:
+                raise ValueError("method longer than 30 instructions")
+            if key != "acq" and any(c.get("op") == "tail" for c in out[key]):
+                raise ValueError("archAcquireSpinlock called outside Acquire")
+        except ValueError as e:
+            notes.append("%s: %s" % (name, e))
+            out[key] = None
     return out, notes
 
 
@@ -213,40 +448,48 @@ def tla_rec(d):
 
 
 def extract(repo):
-    res = {"notes": [], "prog": None, "listing": [], "attempts": None, "try": None, "rel": None}
+    res = {"notes": [], "prog": [], "listing": [], "entry": {"acq": 0, "try": 0, "rel": 0}}
+    asm = None
     try:
         with open(os.path.join(repo, "kernel/sync/spinlock_amd64.s")) as f:
-            res["prog"], res["listing"] = extract_asm(f.read())
+            asm, res["listing"] = extract_asm(f.read())
     except (ValueError, OSError) as e:
         res["notes"].append("spinlock_amd64.s: " + str(e))
+    go = {"acq": None, "try": None, "rel": None}
     try:
         with open(os.path.join(repo, "kernel/sync/spinlock.go")) as f:
             go, notes = extract_go(f.read())
         res["notes"] += notes
-        res["attempts"], res["try"], res["rel"] = go.get("attempts"), go.get("try"), go.get("rel")
     except OSError as e:
         res["notes"].append("spinlock.go: " + str(e))
-    if res["attempts"] is None and res["prog"] is not None:
-        res["notes"].append("acquire path left out: the Go wrapper Acquire was not understood")
-        res["prog"] = None
+    prog = list(asm or [])
+    if not asm:
+        prog = [ins("nop")]          # index 1 is reserved for the assembly routine
+    for key in ("acq", "try", "rel"):
+        code = go.get(key)
+        if code is None:
+            continue
+        if key == "acq" and not asm and any(c.get("op") == "tail" for c in code):
+            res["notes"].append("Acquire left out: it calls the assembly routine, which was not understood")
+            continue
+        res["entry"][key] = len(prog) + 1
+        linked = link(code, len(prog))
+        res["listing"] += ["%2d  %s: %s" % (len(prog) + 1 + k, key, " ".join(str(c[x]) for x in ("op", "d", "v", "to")))
+                           for k, c in enumerate(linked)]
+        prog += linked
+    res["prog"] = prog
     return res
 
 
 def module(res, name="SpinProg"):
-    prog = res["prog"]
     lines = ["---- MODULE %s ----" % name,
              "(* GENERATED by tools/asm2tla.py from kernel/sync/spinlock_amd64.s and spinlock.go - do not edit *)"]
     for l in res["listing"]:
         lines.append("\\* " + l)
-    if prog:
-        lines.append("ExtractedProg == <<\n  " + ",\n  ".join(tla_rec(i) for i in prog) + " >>")
-    else:
-        lines.append("ExtractedProg == <<>>")
-    lines.append("ExtractedAttempts == %d" % (res["attempts"] if res["attempts"] is not None else 1))
-    t = res["try"] or {"kind": "none", "v": 0, "cmp": "eq", "c": 0, "old": 0, "new": 0}
-    lines.append("ExtractedTry == " + tla_rec(t))
-    r = res["rel"] or {"kind": "none", "v": 0}
-    lines.append("ExtractedRel == " + tla_rec(r))
+    lines.append("ExtractedProg == <<\n  " + ",\n  ".join(tla_rec(i) for i in res["prog"]) + " >>")
+    lines.append("ExtractedEntryAcq == %d" % res["entry"]["acq"])
+    lines.append("ExtractedEntryTry == %d" % res["entry"]["try"])
+    lines.append("ExtractedEntryRel == %d" % res["entry"]["rel"])
     lines.append("====")
     return "\n".join(lines) + "\n"
 
